@@ -23,8 +23,16 @@ use std::sync::{Arc, Mutex};
 use tokio_util::codec::{Decoder, Encoder};
 
 pub struct Clock(pub AtomicU64);
+/// Set by the concurrency profiles: reading the clock is a yield point too. The store
+/// reads it while it holds the entry lock of a conditional store, which is the one
+/// place where a client can be observed in the middle of a map call.
+pub static CLOCK_HOOK: std::sync::RwLock<Option<Arc<dyn Fn() + Send + Sync>>> = std::sync::RwLock::new(None);
 impl Timer for Clock {
     fn timestamp(&self) -> u64 {
+        let f = CLOCK_HOOK.read().unwrap().clone();
+        if let Some(f) = f {
+            f()
+        }
         self.0.load(Ordering::SeqCst)
     }
 }
